@@ -485,7 +485,8 @@ class PeerManager:
             getaddrinfo = asyncio.get_event_loop().getaddrinfo
             try:
                 infos = await getaddrinfo(host, 80, type=socket.SOCK_STREAM)
-            except socket.gaierror:
+            except (socket.gaierror, UnicodeError):
+                # UnicodeError: the host has an empty or over-long label (IDNA encoding)
                 permit = False
                 reason = 'address resolution failure'
             else:
